@@ -307,6 +307,7 @@ def _correspond(ctx, corr, rng, T, ls):
         corr.violate("check_bad:None", "check_bad_rsp(None)", True, False)
     corr.count("check_bad_rsp", len(lines) + 1)
     corr.exhaustive["check_bad_rsp(5 classes x 258 outcomes)"] = True
+    corr.exhaustive["lock-step sequence suites (sampled)"] = False
 
     # ---- input value ------------------------------------------------------------------------
     suite = "input_value"
